@@ -112,31 +112,50 @@ func (c *Ctx) OverdraftSendAllConditional(ob *core.Obligation) {
 		return
 	}
 	errKinds := c.errorKinds()
-	pc := core.NewPathConds(fn)
 	n := 0
-	for _, b := range fn.Blocks {
-		if !entry.Dominates(b) {
-			continue
+	type region struct {
+		fn    *ssa.Function
+		entry *ssa.BasicBlock
+	}
+	regions := []region{{fn, entry}}
+	// a helper of the package the arm hands the node to (not a traversal over the sources)
+	for _, call := range callsIn(fn, entry, func(sc *ssa.Function) bool {
+		return sc != fn && len(sc.Blocks) > 0 && relOfFn(sc) == relOfFn(fn) && len(clauseEntries(sc, src)) <= 1
+	}) {
+		for _, prm := range call.Call.StaticCallee().Params {
+			if typeShort(derefT(prm.Type())) == "SourceOverdraft" {
+				regions = append(regions, region{call.Call.StaticCallee(), nil})
+				c.Touch(call.Call.StaticCallee())
+			}
 		}
-		for _, in := range b.Instrs {
-			al, ok := in.(*ssa.Alloc)
-			if !ok {
+	}
+	for _, rg := range regions {
+		fn, entry := rg.fn, rg.entry
+		pc := core.NewPathConds(fn)
+		for _, b := range fn.Blocks {
+			if entry != nil && !entry.Dominates(b) {
 				continue
 			}
-			tn := typeShort(derefT(al.Type()))
-			if !errKinds[tn] || tn == "TypeMismatch" || tn == "UnboundVariable" {
-				continue
-			}
-			n++
-			key := "sendall:SourceOverdraft:" + tn
-			ok2 := pc.Requires(b, func(l core.Lit) bool {
-				f, is := nilFieldLiteral(l, "SourceOverdraft")
-				return is && f == "Bounded"
-			})
-			if ok2 {
-				ob.Pass(key, c.P.Pos(al.Pos()), "error diagnostic emitted only for an unbounded overdraft, which the interpreter rejects in send-all mode")
-			} else {
-				ob.Fail(key, c.P.Pos(al.Pos()), "the error diagnostic "+tn+" is emitted for every overdraft source, but the interpreter accepts a bounded overdraft in send-all mode (balance + overdraft): a script that runs is reported as erroneous")
+			for _, in := range b.Instrs {
+				al, ok := in.(*ssa.Alloc)
+				if !ok {
+					continue
+				}
+				tn := typeShort(derefT(al.Type()))
+				if !errKinds[tn] || tn == "TypeMismatch" || tn == "UnboundVariable" {
+					continue
+				}
+				n++
+				key := "sendall:SourceOverdraft:" + tn
+				ok2 := pc.Requires(b, func(l core.Lit) bool {
+					f, is := nilFieldLiteral(l, "SourceOverdraft")
+					return is && f == "Bounded"
+				})
+				if ok2 {
+					ob.Pass(key, c.P.Pos(al.Pos()), "error diagnostic emitted only for an unbounded overdraft, which the interpreter rejects in send-all mode")
+				} else {
+					ob.Fail(key, c.P.Pos(al.Pos()), "the error diagnostic "+tn+" is emitted for every overdraft source, but the interpreter accepts a bounded overdraft in send-all mode (balance + overdraft): a script that runs is reported as erroneous")
+				}
 			}
 		}
 	}
